@@ -15,7 +15,7 @@
    model (and replayed on the implementation by checks/c18.py). *)
 From DtlsV Require Import Lib.Bytes Gen.Generated Codec.C18Comb Codec.C18CombSound
   Codec.C18Rec Codec.C18RecSound Codec.C18Hs Codec.C18HsSound Codec.C18Rec13 Codec.C18Rec13Sound
-  Codec.C18Ext Codec.C18ExtSound Codec.C18Kx Codec.C18KxSound Codec.C18Run.
+  Codec.C18Ext Codec.C18ExtSound Codec.C18Kx Codec.C18KxSound Codec.C18Hello Codec.C18HelloSound Codec.C18Run.
 Open Scope N_scope.
 
 (* ================================================================== the combinator library *)
@@ -416,6 +416,67 @@ Proof.
 Qed.
 Print Assumptions C18_extension_payloads_dtls13.
 
+(* server_name (ClientHello form; lossy: entries of other name types are dropped) *)
+Theorem C18_extension_server_name : ext_ok w_sni /\ wtrunc w_sni.
+Proof. exact (conj sni_ok_ sni_trunc). Qed.
+Print Assumptions C18_extension_server_name.
+
+(* ================================================================== typed extension blocks, hello messages *)
+
+(* decodeExtensionList / extension.MarshalList under every message context ctx (ClientHello,
+   ServerHello 1.2 / 1.3, HelloRetryRequest, EncryptedExtensions, CertificateRequest,
+   CertificateEntry, NewSessionTicket); the registry is the regenerated g_c18_ext_registry *)
+Theorem C18_extension_block : forall ctx,
+  sound (c_ext_block ctx) /\ dec_ok (c_ext_block ctx) /\ trunc (c_ext_block ctx) /\
+  ext_ok (w_ext_block ctx) /\ wtrunc (w_ext_block ctx).
+Proof.
+  exact (fun ctx => conj (sound_ext_block ctx) (conj (decok_ext_block ctx) (conj (trunc_ext_block ctx)
+                    (conj (ext_block_ok ctx) (ext_block_trunc ctx))))).
+Qed.
+Print Assumptions C18_extension_block.
+
+(* what is accepted satisfies the validation rules (no duplicates, pre_shared_key last in a
+   ClientHello, the dependency rules of the context) *)
+Theorem C18_extension_block_validated : forall ctx b l, bytes_ok b = true ->
+  wdec (w_ext_block ctx) b = Some l -> block_ok ctx l = true.
+Proof. exact ext_block_validated. Qed.
+Print Assumptions C18_extension_block_validated.
+
+Theorem C18_client_hello : ext_ok w_client_hello /\ wtrunc w_client_hello.
+Proof. exact (conj client_hello_ok client_hello_trunc). Qed.
+Print Assumptions C18_client_hello.
+
+(* ServerHello and HelloRetryRequest: the extension context is chosen from the random and from
+   the extension types present *)
+Theorem C18_server_hello : wsound w_server_hello /\ wfixpoint w_server_hello.
+Proof. exact (conj server_hello_roundtrip server_hello_fixpoint). Qed.
+Print Assumptions C18_server_hello.
+
+Theorem C18_dtls13_messages :
+  (ext_ok w_encrypted_extensions /\ wtrunc w_encrypted_extensions) /\
+  (ext_ok w_new_session_ticket /\ wtrunc w_new_session_ticket) /\
+  (ext_ok w_cert_request13 /\ wtrunc w_cert_request13) /\
+  (ext_ok w_certificate13 /\ wtrunc w_certificate13).
+Proof.
+  exact (conj (conj encrypted_extensions_ok encrypted_extensions_trunc)
+        (conj (conj new_session_ticket_ok new_session_ticket_trunc)
+        (conj (conj cert_request13_ok cert_request13_trunc) (conj certificate13_ok certificate13_trunc)))).
+Qed.
+Print Assumptions C18_dtls13_messages.
+
+(* negotiation.go canonicalize = Unmarshal (Marshal hook_result): whatever it returns is in the
+   domain and is left unchanged by canonicalising again *)
+Theorem C18_canonicalize_hello : forall e,  bytes_ok e = true ->
+  (forall y, wdec w_client_hello e = Some y ->
+     exists e', wenc w_client_hello y = Some e' /\ wdec w_client_hello e' = Some y) /\
+  (forall y, wdec w_server_hello e = Some y ->
+     exists e', wenc w_server_hello y = Some e' /\ wdec w_server_hello e' = Some y).
+Proof.
+  exact (fun e He => conj (fun y Hy => proj2 (proj2 client_hello_ok) e y He Hy)
+                          (fun y Hy => server_hello_fixpoint e y He Hy)).
+Qed.
+Print Assumptions C18_canonicalize_hello.
+
 (* ================================================================== non-vacuity *)
 
 Example C18_example_header :
@@ -440,3 +501,11 @@ Proof. vm_compute. reflexivity. Qed.
 Example C18_example_key_share :
   wdec w_client_key_share [0; 7; 0; 29; 0; 3; 1; 2; 3] = Some [(29, [1; 2; 3])].
 Proof. vm_compute. reflexivity. Qed.
+
+(* a ClientHello with supported_groups, signature_algorithms and extended_master_secret *)
+Example C18_example_client_hello :
+  let b := [254; 253] ++ repeat 1 32 ++ [0; 0; 0; 2; 192; 43; 1; 0] ++
+           [0; 20; 0; 10; 0; 4; 0; 2; 0; 29; 0; 13; 0; 4; 0; 2; 4; 3; 0; 23; 0; 0] in
+  omap (fun x => map ev_type (snd x)) (wdec w_client_hello b) = Some [10; 13; 23] /\
+  obind (wdec w_client_hello b) (wenc w_client_hello) = Some b.
+Proof. vm_compute. split; reflexivity. Qed.
